@@ -155,7 +155,10 @@ def compare(ctx, src, res, what):
         path = os.path.join(d, "u.c")
         with open(path, "w") as f:
             f.write(src)
-        strict = ["-pedantic-errors", "-Werror=implicit-function-declaration", "-Werror=implicit-int"]
+        # validity = both reference compilers translate the unit.  (Not -pedantic-errors: gcc then rejects every history that
+        # uses an inline or static function without defining it, clang does not, and the split would discard exactly the
+        # histories whose undefined references this check compares.)
+        strict = ["-Werror=implicit-function-declaration", "-Werror=implicit-int"]
         gelf, gerr = refcc.gcc_obj(path, os.path.join(d, "g.o"), std="c11", extra=strict)
         celf, cerr = refcc.clang_obj(path, os.path.join(d, "c.o"), "x86_64-sysv", std="c11", extra=strict)
     finally:
@@ -169,6 +172,11 @@ def compare(ctx, src, res, what):
                 res.labels.append("refs-reject-cproc-accepts")
         else:
             res.discard.append("ref-split-validity")
+            if os.environ.get("VERIF_DUMP_DISCARDS"):
+                dd = os.environ["VERIF_DUMP_DISCARDS"]
+                os.makedirs(dd, exist_ok=True)
+                with open(os.path.join(dd, "split-%s.c" % sha(src)), "w") as f:
+                    f.write("/* gcc: %s\nclang: %s */\n%s" % ((gerr or "ok")[:600], (cerr or "ok")[:600], src))
         return False
     gt, ct = elf_table(gelf), elf_table(celf)
     if gt != ct:
